@@ -125,6 +125,10 @@ Issue::ReferenceRule validateCellmlIdentifier(const std::string &name)
         if (name.find_first_not_of("abcdefghijklmnopqrstuvwxyzABCDEFGHIJKLMNOPQRSTUVWXYZ0123456789_") != std::string::npos) {
             return Issue::ReferenceRule::DATA_REPR_IDENTIFIER_LATIN_ALPHANUM;
         }
+        // At least one basic Latin alphabetic character.
+        if (name.find_first_of("abcdefghijklmnopqrstuvwxyzABCDEFGHIJKLMNOPQRSTUVWXYZ") == std::string::npos) {
+            return Issue::ReferenceRule::DATA_REPR_IDENTIFIER_AT_LEAST_ONE_ALPHANUM;
+        }
     } else {
         // Empty string.
         return Issue::ReferenceRule::DATA_REPR_IDENTIFIER_AT_LEAST_ONE_ALPHANUM;
